@@ -60,18 +60,10 @@ Fixpoint in_fragment (e : expr) : bool :=
   | Lit _ | Var _ | Slot _ => true
   | Unknown _ _ => false
   | If c t f => in_fragment c && in_fragment t && in_fragment f
-  | And a b => in_fragment a && in_fragment b
-  | Or a b => in_fragment a && in_fragment b
-  | UnApp UIsEmpty _ => false
-  | UnApp _ a => in_fragment a
-  | BinApp op a b =>
-      match binop_tok op with
-      | Some _ => in_fragment a && in_fragment b
-      | None => false
-      end
-  | ExtCall _ _ => false
-  | GetAttr a _ | HasAttr a _ | Like a _ | Is a _ => in_fragment a
-  | SetE _ | RecordE _ => false
+  | And a b | Or a b | BinApp _ a b => in_fragment a && in_fragment b
+  | UnApp _ a | GetAttr a _ | HasAttr a _ | Like a _ | Is a _ => in_fragment a
+  | ExtCall _ args | SetE args => forallb in_fragment args
+  | RecordE items => forallb (fun kv => in_fragment (snd kv)) items
   end.
 
 Section Special.
@@ -136,6 +128,15 @@ Fixpoint need (e : expr) : nat :=
   | If c t f => S (need c + need t + need f)
   | And a b | Or a b | BinApp _ a b => S (need a + need b)
   | GetAttr a _ => S (S (need a))
+  | UnApp UIsEmpty a => S (S (need a))
   | UnApp _ a | HasAttr a _ | Like a _ | Is a _ => S (need a)
+  | ExtCall _ args | SetE args =>
+      S ((fix go (l : list expr) : nat := match l with [] => O | x :: l' => (S (need x) + go l')%nat end) args)
+  | RecordE items =>
+      S ((fix go (l : list (str * expr)) : nat :=
+            match l with [] => O | kv :: l' => (S (need (snd kv)) + go l')%nat end) items)
   | _ => 1%nat
   end.
+Fixpoint needs (l : list expr) : nat := match l with [] => O | x :: l' => (S (need x) + needs l')%nat end.
+Fixpoint needs_r (l : list (str * expr)) : nat :=
+  match l with [] => O | kv :: l' => (S (need (snd kv)) + needs_r l')%nat end.
